@@ -1,6 +1,7 @@
 import TarpcModel.Lemmas.ServerNotLate
 import TarpcModel.Props.C06
 import TarpcModel.Props.C16Server
+import TarpcModel.Monitors.Server
 /-!
 # C06 (server side) — request deadlines are enforced, not late
 
@@ -149,6 +150,31 @@ theorem C06_aborts_at_deadline_pre_post (limit : Option Nat) (respCap tcap : Nat
   have hq := qc_reach C16_server_flags limit respCap tcap coupled ops
   have hi := sinv_reach false limit respCap tcap coupled ops
   intro en hen k hk hkey hdue hrem
+  -- the tick is the exact due time rounded up: lateness measured from `dueAt` is at least that from the tick
+  have htk := hi.t.tk en hen k hk hkey
+  have hge := ceilMs_ge' en.dueAt
+  rw [← htk] at hge
+  exact basePollNext_due_gone C16_server_flags hn fuel hi hq ⟨en, hen, rfl, rfl, k, hk, hkey, hdue, by omega⟩ h
+
+/-- **C06 (c), pre/post form with the exact lateness.**  The same with the lateness measured as the code measures it —
+from the exact time the timer was due (`en.dueAt`, `timer_due`) rather than from its millisecond tick: every request
+that was tracked when the poll began, whose timer tick had passed and whose `remainder` does not exceed `now − dueAt`
+(i.e. `restOf now en = 0`: `poll_expired` would expire it rather than re-arm it) is gone when the poll goes idle. -/
+theorem C06_aborts_at_deadline_pre_post_exact (limit : Option Nat) (respCap tcap : Nat) (coupled : Bool) (ops : List SOp)
+    (hT : advSum ops < 2 ^ 35 * nsPerMs) (fuel : Nat)
+    (c : Sys) (hc : c = ops.foldl applyOp (initSys limit respCap tcap coupled))
+    (h : (basePollNext fuel c.s c.now).2 = .pending ∨ (basePollNext fuel c.s c.now).2 = .none) :
+    ∀ en ∈ c.s.inflight, ∀ k ∈ c.s.timers.cores, k.1 = en.timerKey → k.2.2 * nsPerMs ≤ c.now →
+      en.remainder ≤ c.now - en.dueAt →
+      (∀ en' ∈ (basePollNext fuel c.s c.now).1.inflight, en'.id ≠ en.id) ∧
+      (en.id ∈ c.s.cancelQ ∨ ∀ ex ∈ (basePollNext fuel c.s c.now).1.execs, ex.rid = en.rid → ex.aborted = true) := by
+  subst hc
+  have hnow : (ops.foldl applyOp (initSys limit respCap tcap coupled)).now = advSum ops := by
+    rw [foldl_applyOp_now]; exact Nat.zero_add _
+  have hn : (ops.foldl applyOp (initSys limit respCap tcap coupled)).now < panicFreeNs := by rw [hnow]; exact hT
+  have hq := qc_reach C16_server_flags limit respCap tcap coupled ops
+  have hi := sinv_reach false limit respCap tcap coupled ops
+  intro en hen k hk hkey hdue hrem
   exact basePollNext_due_gone C16_server_flags hn fuel hi hq ⟨en, hen, rfl, rfl, k, hk, hkey, hdue, hrem⟩ h
 
 /-- the request is read and yielded, the application drops it (its guard queues a cancellation), 5 ms pass -/
@@ -172,7 +198,7 @@ leaked here: entry and timer are gone after the poll.)  `C06_aborts_at_deadline_
 theorem C06_statement_as_written_false : ¬ C06AbortsAtDeadlineStatement := by
   intro h
   have h1 := h none 1 1 true c06AbandonedOps 5
-  have h2 := h1 (SPoll.isIdle_iff (by decide)) { id := 1, timerKey := 0, rid := 0 } (by decide) (0, 1, 1) (by decide)
+  have h2 := h1 (SPoll.isIdle_iff (by decide)) { id := 1, timerKey := 0, rid := 0, dueAt := 1000000 } (by decide) (0, 1, 1) (by decide)
     rfl (by decide) rfl
   have h3 : ∃ ex ∈ (basePollNext 5 (c06AbandonedOps.foldl applyOp (initSys none 1 1 true)).s
       (c06AbandonedOps.foldl applyOp (initSys none 1 1 true)).now).1.execs, ex.rid = 0 ∧ ex.aborted = false := by decide
@@ -212,6 +238,37 @@ example :
 example :
     (requestsPollNext 5 (c06TwoOps.foldl applyOp (initSys none 1 1 true)).s 2000000).2 = .pending ∧
     (requestsPollNext 5 (c06TwoOps.foldl applyOp (initSys none 1 1 true)).s 2000000).1.timers.cores = [(1, 2, 3)] := by
+  decide
+
+/-! ### where the tick is placed: a re-arm does not round up a second time -/
+
+/-- a request read at 1 ns whose deadline is one clamp + 10 ms away; the channel is polled when the first timer fires (at
+`clampNs + 1 ms`, the millisecond tick of `1 ns + clampNs`), and again exactly at the deadline -/
+def c06RearmLateOps : List SOp :=
+  [.advance 1, .injectReq 1 (clampNs + 10000000) ⟨0, .given 0, false⟩ 0, .pollServer, .pollExec 0,
+   .advance (clampNs + 1000000 - 1), .pollServer, .advance 9000000, .pollServer, .pollExec 0]
+
+set_option maxRecDepth 100000 in
+/-- **A re-arm no longer rounds up a second time (the former finding, fixed).**  The request is read at `t0 = 1 ns`
+with deadline `D = clampNs + 10 ms` (a whole millisecond).  `start_request` arms `clampNs` (due at `1 ns + clampNs`,
+tick `clampNs + 1 ms`) and keeps `remainder = 10 ms − 1 ns`.  Polled exactly at that tick, `poll_expired` now measures the
+lateness from the exact due time the entry records (`dueAt`, `timer_due`): `late = 1 ms − 1 ns`, `rest = 9 ms`, new due
+time `clampNs + 1 ms + 9 ms = D`, tick `D`.  The channel polled at `D` expires the request — table and timer queue empty,
+handler aborted — and the server-side C06 monitor (`monC06`, whose model of the tick is `ceil_ms (max deadline yielded)`)
+accepts the trace.  (While lateness was measured from the queue's *rounded* tick, `late` was 0 here, the re-arm was due at
+`D + 1 ms − 1 ns`, and the monitor rejected the trace: each re-arm could add up to 1 ms.  `C06_timer_exact`:
+`dueAt + remainder = deadline` exactly, for deadlines still ahead.) -/
+theorem C06_rearm_not_late_witness :
+    advSum c06RearmLateOps < 2 ^ 35 * nsPerMs ∧
+    (c06RearmLateOps.foldl applyOp (initSys none 1 1 true)).now = clampNs + 10000000 ∧
+    (c06RearmLateOps.foldl applyOp (initSys none 1 1 true)).s.inflight = [] ∧
+    (c06RearmLateOps.foldl applyOp (initSys none 1 1 true)).s.timers.cores = [] ∧
+    (c06RearmLateOps.foldl applyOp (initSys none 1 1 true)).s.execs.map (fun e => (e.deadline, e.aborted, e.phase)) =
+      [(clampNs + 10000000, true, .done)] ∧
+    (monC06 none (trace (initSys none 1 1 true) c06RearmLateOps)).ok = true ∧
+    -- before the poll at `D`: re-armed once, due exactly at the deadline, nothing left to arm
+    ((c06RearmLateOps.take 6).foldl applyOp (initSys none 1 1 true)).s.inflight =
+      [{ id := 1, timerKey := 1, rid := 0, remainder := 0, dueAt := clampNs + 10000000 }] := by
   decide
 
 end TarpcModel.Server
